@@ -48,6 +48,13 @@ type c28Witness struct {
 	Detail    string   `json:"detail,omitempty"`
 }
 
+func fmtIfsShort(ifs []refIf) string {
+	if len(ifs) <= 16 {
+		return fmtIfs(ifs)
+	}
+	return fmtIfs(ifs[:8]) + fmt.Sprintf(" …(%d more)… ", len(ifs)-12) + fmtIfs(ifs[len(ifs)-4:])
+}
+
 func fmtIfs(ifs []refIf) string {
 	s := ""
 	for k, i := range ifs {
@@ -205,7 +212,7 @@ func judgeCallC28(r *mon.Run, c *call, st *c28Stats) {
 			cands := byKey[key]
 			if len(cands) == 0 {
 				r.Violation("C28:not-a-join",
-					fmt.Sprintf("%s→%s: no join of ≤1 up, ≤1 core, ≤1 down input segment yields the interface sequence %s", c.Src, c.Dst, fmtIfs(ifs)), wit(""))
+					fmt.Sprintf("%s→%s: no join of ≤1 up, ≤1 core, ≤1 down input segment yields the interface sequence %s", c.Src, c.Dst, fmtIfsShort(ifs)), wit(""))
 				continue
 			}
 			var matched []*refPath
@@ -270,7 +277,7 @@ func judgeCallC28(r *mon.Run, c *call, st *c28Stats) {
 			if !findAll {
 				if prev, dup := seen[key]; dup {
 					r.Violation("C28:duplicate-sequence", fmt.Sprintf("%s→%s: paths %d and %d share the interface sequence %s",
-						c.Src, c.Dst, prev, idx, fmtIfs(ifs)), wit(""))
+						c.Src, c.Dst, prev, idx, fmtIfsShort(ifs)), wit(""))
 				}
 				latest := cands[0].Expiry
 				for _, rf := range cands {
